@@ -250,6 +250,17 @@ def r4_property_accessors(ctx):
                     tn = fa.origin.attrs['test']
                     for cst in _str_consts_compared(_deep_parts(ctx, f, rd_, tn, fa.expr)):
                         consts_guarding_exit.setdefault(cst, n)
+        # the accessor exits depend on the ATTRIBUTE name of the decorator only, not on how the property is reached (`@x.setter`, `@Base.x.setter`)
+        for req in ('setter', 'deleter'):
+            if req not in consts_guarding_exit:
+                continue
+            en = consts_guarding_exit[req]
+            narrowing = [fa for fa in graph.guard_facts(dom, en) if fa.polarity in (True, False) and isinstance(fa.expr, ast.AST) and
+                         any(isinstance(x, ast.Attribute) and x.attr == 'value' and isinstance(x.value, ast.Name) for x in ast.walk(fa.expr))]
+            rep.ob('C07.R4', ctx.loc(f, en.ast), '@<anything>.%s is an accessor' % req, not narrowing,
+                   'the exit is taken whatever expression the property is reached through' if not narrowing else
+                   'the %s exit additionally requires %s: an accessor written through a qualified name (`@Base.prop.%s`) is recorded as a definition of its own and replaces the getter entry' %
+                   (req, fmt_facts(narrowing), req), anchor=f.qualname)
         for req in ('setter', 'deleter'):
             ok = req in consts_guarding_exit
             rep.ob('C07.R4', ctx.loc(f, consts_guarding_exit[req].ast if ok else f.node), 'exit for @<prop>.%s' % req, ok,
@@ -801,6 +812,7 @@ from ..selftest import fire, silent      # noqa: E402
 SA = 'xdoctest/static_analysis.py'
 CO = 'xdoctest/core.py'
 VARIANTS = [
+    fire('accessor-exit-only-for-plain-names', 'C07.R4', (SA, "                if isinstance(decor, ast.Attribute):\n", "                if (isinstance(decor, ast.Attribute) and\n                        isinstance(decor.value, ast.Name)):\n")),
     fire('style-not-forwarded-to-the-docstring-parser', 'C07.R10', ('xdoctest/core.py', "                    style=style, parser_kw=parser_kw)\n", "                    parser_kw=parser_kw)\n")),
     fire('package-init-files-not-walked', 'C07.R10', ('xdoctest/core.py', "            pkgpath, with_pkg=True, with_libs=True))\n", "            pkgpath, with_libs=True))\n")),
     fire('example-blocks-by-exact-label', 'C07.R7', ('xdoctest/core.py', "        if type.startswith(example_tags):\n", "        if type in example_tags:\n")),
